@@ -232,6 +232,8 @@ def check_replace_axiom(w):
 CONTRACTS = {
     'Context.catcode': dict(check=check_catcode, gen=gen_catcode),
     'Context.whichCode': dict(check=check_catcode, gen=gen_catcode),
+    'Tokenizer.iterchars': dict(check=lambda w: (True, '') if is_hex_form(w) else check_lex(w), gen=gen_lex, small=small_lex),
+    'Tokenizer.__iter__': dict(check=lambda w: (True, '') if is_hex_form(w) else check_lex(w), gen=gen_lex, small=small_lex),
     'A10': dict(check=check_replace_axiom, gen=lambda rng: dict(s=''.join(rng.choice(ALPHA) for _ in range(rng.randrange(0, 8))), a=rng.choice(ALPHA), x=rng.choice(ALPHA))),
 }
 
